@@ -35,7 +35,7 @@ IsOnesV(v) == v = Ones(Len(v))
 \* value as a natural number, saturated at 2^20 (shift amounts are only compared with widths < 2^20)
 ToN(v)     == IF \E i \in 21..Len(v) : v[i] = 1 THEN 2^20
               ELSE FoldLeft(LAMBDA acc, i : acc + v[i] * (2^(i-1)), 0, Idx(IF Len(v) < 20 THEN Len(v) ELSE 20))
-OfNat(n, w) == [i \in 1..w |-> ((n \div (2^(i-1))) % 2)]
+OfNat(n, w) == [i \in 1..w |-> IF i <= 20 THEN ((n \div (2^(i-1))) % 2) ELSE 0]      \* n < 2^20 (widths)
 IsPow2(v)  == \E j \in 1..Len(v) : v = [i \in 1..Len(v) |-> IF i = j THEN 1 ELSE 0]
 Log2(v)    == (CHOOSE j \in 1..Len(v) : v[j] = 1) - 1
 \* maximal runs of ones, as <<start, end>> (end exclusive, 0-based), lowest first  (baa bit_set_intervals)
